@@ -90,7 +90,7 @@ def install(eng):
             return c.issubclass_of(eng, t.name)
         raise I.PyRaise("TypeError", ("issubclass() arg 1 must be a class",))
 
-    @model("builtins.type")
+    @model("builtins.type", "ctor.type")
     def _type(eng, v):
         if v is None:
             return I.TypeRef("NoneType")
@@ -710,7 +710,7 @@ def install(eng):
         if a.ndim != 1 or b.ndim != 1:
             raise Unsupported("kron of non-vectors")
         af, bf, nb = a.fn, b.fn, b.shape[0]
-        return I.Arr((T.mul(a.shape[0], nb),), lambda i: T.mul(af(T.floordiv(i, nb)), bf(T.mod(i, nb)) if T.is_sym(nb) or T.is_sym(i) else bf(i % nb)), M.dtype_join(a.dtype, b.dtype))
+        return I.Arr((T.mul(a.shape[0], nb),), lambda i: T.mul(af(M.fdiv(i, nb)), bf(M.fmod(i, nb)) if T.is_sym(nb) or T.is_sym(i) else bf(i % nb)), M.dtype_join(a.dtype, b.dtype))
 
     @model("numpy.diag")
     def _diag(eng, a):
@@ -791,7 +791,23 @@ def install(eng):
             if res is None:
                 raise I.PyRaise("IndexError", ("index out of range in concatenation",))
             return res
-        return I.Arr(tuple(shape), fn, dt)
+        out = I.Arr(tuple(shape), fn, dt)
+        if axis == 0:
+            # C-order flat accessor: the pieces are contiguous blocks
+            sizes = [M.size_of(a.shape) for a in arrs]
+            foffs = [0]
+            for sz in sizes:
+                foffs.append(T.add(foffs[-1], sz))
+            pieces = [(a.flat if a.flat is not None else (lambda g, a=a: a.fn(*M.unravel(g, a.shape)))) for a in arrs]
+
+            def flat(g):
+                res = None
+                for k in range(len(arrs) - 1, -1, -1):
+                    v = M.coerce(pieces[k](T.sub(g, foffs[k])), dt)
+                    res = v if res is None else T.ite(T.compare("lt", g, foffs[k + 1]), v, res)
+                return res
+            out.flat = flat
+        return out
 
     @model("numpy.concatenate")
     def _concatenate(eng, arrs, axis=0):
@@ -823,6 +839,9 @@ def install(eng):
             x, y = rest
             return M.elementwise(eng, lambda c, a, b: T.ite(T.zb(c) if T.is_sym(c) else bool(c), a, b), cond, x, y)
         cond = _asarray(eng, cond)
+        if cond.ndim == 1 and T.is_sym(cond.shape[0]):
+            # index set of a mask of symbolic length: only usable as an index (a[np.where(m)] = v  ==  a[m] = v)
+            return (I.Opaque("where", mask=cond),)
         if cond.ndim == 1 and not T.is_sym(cond.shape[0]):
             flags = [T.simp(cond.fn(k)) if T.is_sym(cond.fn(k)) else cond.fn(k) for k in range(cond.shape[0])]
             if all(not T.is_sym(f) for f in flags):
@@ -832,7 +851,10 @@ def install(eng):
 
     @model("numpy.unique")
     def _unique(eng, a):
-        vals = M.iterate(eng, _asarray(eng, a))
+        arr = _asarray(eng, a)
+        if "numpy.unique" in eng.externals and (T.is_sym(arr.shape[0]) or any(T.is_sym(arr.fn(k)) for k in range(arr.shape[0]))):
+            return eng.externals["numpy.unique"](eng, arr)
+        vals = M.iterate(eng, arr)
         if any(T.is_sym(v) for v in vals):
             raise Unsupported("np.unique of symbolic values")
         u = sorted(set(vals))
@@ -981,5 +1003,27 @@ def install(eng):
             f = a.fn
             return I.Arr((reps[0], a.shape[0]), lambda i, j: f(j), a.dtype)
         raise Unsupported("tile")
+
+    # ------------------------------------------------------------------ externals known only by (assumed) contract
+    @model("importlib.resources.files")
+    def _files(eng, pkg):
+        def joinpath(eng_, name):
+            return I.Opaque("path", pkg=pkg, name=name)
+        return I.Opaque("pkgdir", pkg=pkg, joinpath=I.Model("joinpath", joinpath))
+
+    def external(name):
+        def f(eng, *a, **k):
+            h = eng.externals.get(name)
+            if h is None:
+                raise Unsupported(f"external call {name} has no assumed contract in this harness")
+            return h(eng, *a, **k)
+        return f
+    for nm in ["numpy.load", "numpy.unique!", "scipy.spatial.cKDTree", "scipy.interpolate.CubicSpline", "numpy.linalg.svd", "numpy.linalg.eigh",
+               "scipy.spatial.transform.Rotation.random", "numpy.polynomial.legendre.leggauss", "numpy.polynomial.chebyshev.chebgauss",
+               "scipy.special.roots_chebyu", "scipy.special.roots_genlaguerre", "scipy.linalg.solve", "scipy.integrate.solve_ivp",
+               "scipy.integrate.solve_bvp", "sympy.bell", "scipy.special.sph_harm_y", "scipy.special.sph_harm_y_all", "scipy.optimize.nnls",
+               "scipy.interpolate.RegularGridInterpolator", "json.load", "numpy.savez", "numpy.random.rand", "itertools.product", "itertools.islice",
+               "scipy.constants.value", "numpy.delete", "numpy.geomspace", "numpy.finfo"]:
+        reg[nm] = I.Model(nm, external(nm))
 
     eng.models.update(reg)
